@@ -85,6 +85,9 @@ def skeletons(tier, seed=0):
     out.append(('C', ('c', [('i', None, [A('C', 0, 0, 'w'), A('Co', 0, 2, 'f'), A('O', 0, -2, 'w')])]), None, ''))
     out.append(('C', ('c', [('i', 'w', [A('H', 0, 0, 'w'), A('O', 0, 0, None)])]), None, ''))
     out.append(('C', ('c', [('i', 'f', [A('H', 2, 1, 'f'), A('S', 0, 6, None), A('O', 16, -2, 'w')])]), None, ''))
+    # 2b. the same element in one charge state as natural ion, isotope ion and a second isotope ion: three different atoms
+    out.append(('C', ('c', [('i', None, [A('Fe', 56, 2, 'w'), A('Fe', 0, 2, 'f'), A('Fe', 54, 2, 'w'), A('O', 0, -2, 'w')])]), None, ''))
+    out.append(('C', ('c', [('e', 'w', ('c', [('i', None, [A('H', 0, 1), A('D', 0, 1)])])), ('i', None, [A('H', 1, 1, 'f'), A('O', 18, -2, 'w'), A('O', 0, -2)])], [' ']), None, ''))
     # 3. separators
     for sep in ('', ' ', '+', ' + ', '  +'):
         out.append(('C', ('c', [('i', None, [A('Ca'), A('C'), A('O', 0, 0, 'w')]), ('i', 'w', [A('H', 0, 0, 'w'), A('O')])], [sep]), None, ''))
@@ -170,7 +173,7 @@ def _skeleton_case(desc, private):
         want_pairs = tree.denote(T)
         want = cm.merge_counts(want_pairs)
         got = f.atoms
-        E.fact('atom_set', set(got.keys()) == set(want.keys()), note='%s: %s vs %s' % (text, sorted(map(str, got)), sorted(map(str, want))))
+        E.fact('atom_set', cm.same_atom_sets(got, want), note='%s: %s vs %s' % (text, sorted(map(str, got)), sorted(map(str, want))))
         for a in want:
             if a in got:
                 E.eq('atoms[%s]' % a, got[a], want[a], note=text)
